@@ -1,5 +1,6 @@
 // acverif: drives the real aho-corasick implementation and records what it
 // does as ndjson for TLC. It contains no oracle.
+mod calls;
 mod common;
 mod dump;
 mod gen;
@@ -37,16 +38,39 @@ fn main() {
     let shards: usize = get("shards", "1").parse().unwrap();
     let out = get("out", "/verif/work/out");
     common::quiet_panics();
+    let mks: Vec<&'static str> = get("mks", "std,lf,ll")
+        .split(',')
+        .map(|x| match x {
+            "std" => "std",
+            "lf" => "lf",
+            "ll" => "ll",
+            _ => panic!("bad mk"),
+        })
+        .collect();
     match args[1].as_str() {
         "dump" => {
             let fams: Vec<String> =
                 get("families", "f23").split(',').map(|s| s.to_string()).collect();
             let full = get("full", "false") == "true";
-            let st = dump::run(&out, shards, &fams, seed, full);
+            let st = dump::run(&out, shards, &fams, seed, full, &mks);
             println!(
                 "{{\"automata\":{},\"states\":{},\"lists\":{}}}",
                 st.automata, st.states, st.lists
             );
+        }
+        "calls" => {
+            let fam = get("family", "enum");
+            let scale: usize = get("scale", "1").parse().unwrap();
+            let ans: Vec<bool> = match get("an", "both").as_str() {
+                "no" => vec![false],
+                "yes" => vec![true],
+                _ => vec![false, true],
+            };
+            let flav: Vec<String> =
+                get("flav", "all").split(',').map(|x| x.to_string()).collect();
+            let f = calls::Filter { mks, ans, flav };
+            let st = calls::run(&out, shards, &fam, seed, scale, &f);
+            println!("{{\"contexts\":{},\"events\":{}}}", st.contexts, st.events);
         }
         other => {
             eprintln!("unknown subcommand {}", other);
